@@ -148,6 +148,8 @@ def run_case(case) -> dict:
     rec["etag_weak"] = bool(c["etag"][1]) if c["etag"] else False
     rec["lm_p"] = c["lm"] is not None
     rec["lm"] = list(c["lm"]) if c["lm"] else [1970, 1, 1, 0, 0, 0, 0]
+    # send_file over a reader that is neither a path nor a BytesIO does not know the length
+    rec["len_known"] = not (c["api"] == "sf" and c["shape"] == "pipe")
     out = {"status": 0, "exc": "", "cr_n": 0, "cr": [], "cl_n": 0, "cl": [], "r_etag_n": 0, "r_etag": [], "r_lm_n": 0, "r_lm": [],
            "body": [], "modified": False}
     env = _environ(c)
@@ -294,7 +296,7 @@ def random_range(rng: random.Random, length: int) -> str:
     return unit + ws() + "=" + ws() + (ws() + "," + ws()).join(spec() for _ in range(n))
 
 
-def validator_cases(apis=("mc", "irm"), methods=("GET", "HEAD", "POST")):
+def validator_cases(apis=("mc", "irm"), methods=("GET", "HEAD", "POST"), wide=True):
     """The product of the property's validator classes (hand-enumerated texts)."""
     cases = []
     lm0 = BASE
@@ -310,12 +312,12 @@ def validator_cases(apis=("mc", "irm"), methods=("GET", "HEAD", "POST")):
                     if et is not None:
                         cond += [("im", t) for t in etag_lists(et) + GARBAGE_TAGS]
                     ims = [None]
-                    for delta in (-1, 0, 1, 86400, -86400):
+                    for delta in (-1, 0, 1, 86400, -86400) if wide else (-1, 0, 1):
                         ims.append(fmt_date(lm0 + timedelta(seconds=delta)))
                     for off in (60, -330, 845):
-                        for delta in (-1, 0, 1):
+                        for delta in (-1, 0, 1) if wide else (0, -1 if off < 0 else 1):
                             ims.append(fmt_date(lm0 + timedelta(seconds=delta), off))
-                    ims += GARBAGE_DATES[:2]
+                    ims += GARBAGE_DATES[:2] if wide else GARBAGE_DATES[:1]
                     for (h, t) in cond:
                         for d in ims:
                             c = {"api": api, "method": method, "etag": list(et) if et else None, "lm": lm, "ims": d,
@@ -325,7 +327,7 @@ def validator_cases(apis=("mc", "irm"), methods=("GET", "HEAD", "POST")):
     return cases
 
 
-def ifrange_cases(lengths=(0, 1, 4)):
+def ifrange_cases(lengths=(0, 1, 4), shapes=("list", "file")):
     cases = []
     lm0 = BASE
     for et in [None, ("abc", False), ("abc", True)]:
@@ -341,7 +343,7 @@ def ifrange_cases(lengths=(0, 1, 4)):
                 for rg in (None, "bytes=1-2", "bytes=0-", "bytes=-1", "bytes=9-", "bytes=0-0,2-2", "bytes=x"):
                     for n in lengths:
                         for method in ("GET", "POST"):
-                            for shape in ("list", "file"):
+                            for shape in shapes:
                                 cases.append({"api": "mc", "method": method, "etag": list(et) if et else None, "lm": lm,
                                               "ifr": v, "range": rg, "length": n, "shape": shape, "block": 3})
     return cases
@@ -422,4 +424,26 @@ def random_case(rng: random.Random, max_len=40) -> dict:
             if rng.random() < 0.7:
                 h = "im" if (cur and rng.random() < 0.3) else "inm"
                 c[h] = rng.choice(etag_lists(tuple(cur) if cur else None) + GARBAGE_TAGS)
+    return c
+
+
+def case_of_model(v) -> dict:
+    """A (req, rep) pair exported by MCConditional -> case."""
+    req, rep = v["req"], v["rep"]
+    txt = lambda cp: "".join(map(chr, cp))
+    c = {"api": "mc", "method": req["method"], "length": rep["length"], "shape": "list", "block": 2,
+         "etag": [txt(rep["etag_opaque"]), rep["etag_weak"]] if rep["etag_p"] else None,
+         "lm": list(rep["lm"]) if rep["lm_p"] else None}
+    for h in HDRS:
+        c[h] = txt(req[h]) if req[h + "_p"] else None
+    return c
+
+
+def case_of_rangebody(v) -> dict:
+    """An initial state exported by MCRangeBody -> case (Range: bytes=start-(stop-1))."""
+    c = {"api": "mc", "method": "GET", "length": v["n"], "range": f"bytes={v['start']}-{v['stop'] - 1}"}
+    if v["src"] == "list":
+        c.update(shape="list" if (v["start"] + v["stop"]) % 2 else "gen", blocks=list(v["blocks"]), block=1)
+    else:
+        c.update(shape="file" if v["seekable"] else "pipe", block=v["bsize"])
     return c
